@@ -1076,8 +1076,15 @@ VmTrap vm_core_execute(VmState *vm) {
                 vm_release(&vm->heap, s);
                 return trap_error(vm, VM_ERR_TYPE_ERROR, "STR_SUBSTR: not a string");
             }
-            uint32_t start = (uint32_t)(start_v.tag == TAG_INT ? start_v.as.i64 : 0);
-            uint32_t len = (uint32_t)(len_v.tag == TAG_INT ? len_v.as.i64 : 0);
+            /* bounds in 64 bits before narrowing: start 2^32+k must not alias k, a negative start is out of
+             * bounds (-> ""), start + length may exceed every integer type (-> until the end) */
+            int64_t slen64 = (int64_t)s.as.string->length;
+            int64_t start64 = start_v.tag == TAG_INT ? start_v.as.i64 : 0;
+            int64_t len64 = len_v.tag == TAG_INT ? len_v.as.i64 : 0;
+            if (start64 < 0 || start64 >= slen64 || len64 <= 0) { start64 = slen64; len64 = 0; }
+            if (len64 > slen64 - start64) len64 = slen64 - start64;
+            uint32_t start = (uint32_t)start64;
+            uint32_t len = (uint32_t)len64;
             VmString *result = vm_string_substr(&vm->heap, s.as.string, start, len);
             vm_release(&vm->heap, s);
             stack_push(vm, val_string(result));
